@@ -93,7 +93,7 @@ def search(rng, binaries, log):
     return None
 
 
-def extra_checks(tier, rng, binaries, log):
+def _extra_checks_base(tier, rng, binaries, log):
     """chunk framing at the encoder, for sizes no simulated write can carry: `chunk_header(size, ext).to_string()` must be
     the hexadecimal size (no sign, no prefix, every digit), `;ext` when an extension is given, CRLF — judged by
     construction, and the same lines are given to the model driver (correspondence)."""
@@ -136,3 +136,9 @@ def extra_checks(tier, rng, binaries, log):
         res.append((False, "correspondence (encoder): " + diff[1], diff[0].script(), {}))
     res.append((True, "", "", {"encoder_chunk_headers_checked": len(cases)}))
     return res
+
+
+def extra_checks(tier, rng, binaries, log):
+    """+ the REAL http_client (sim_driver client mode): see tools/clientsim.py"""
+    import clientsim
+    return _extra_checks_base(tier, rng, binaries, log) + clientsim.run(tier, rng.fork("client"), binaries, log, ['wire'])
